@@ -114,7 +114,10 @@ let dump_spec ((s, k) : sp * (nat list * nat list)) =
   String.concat "," (List.map string_of_int (sorted_ids kept)) ^ (if s.s_bad then ";BAD" else "")
 let () =
   let mode = Sys.argv.(1) in
-  if mode = "params" then
+  if mode = "rule" then
+    (* the collection threshold rule of the tree, tabulated for the generator's own simulation *)
+    print_endline (String.concat " " (List.init 1500 (fun i -> string_of_int (int_of_nat (lc_rule (nat_of_int i))))))
+  else if mode = "params" then
     Printf.printf "rem_fix=%b sweep_fix=%b defer_fix=%b shape=%b main_atexit=%b main_after_return=%b error_exits=%b\n" lc_rem_fix lc_sweep_fix lc_defer_fix lc_shape lc_main_atexit lc_main_after lc_err_exit
   else
   read_lines (fun line ->
